@@ -27,7 +27,7 @@ LEVEL_ASSUMPTIONS = ["oracle: own average-rank computation and BFS table of "
 
 def REQUIRED(tier):  # noqa: N802
     return {"instances_judged": 1000, "with_duplicates": 300,
-            "big_instances_judged": 20,
+            "big_instances_judged": 20, "swap_long_permutations": 40,
             "sequences_with_identical_object_repeated": 100,
             "dist[absabs+1]": 50,
             "ties_inside_horizon": 300, "beyond_horizon_entries": 1000,
@@ -369,6 +369,22 @@ def run_shard(ctx, args):
             n = int(rng.integers(1, 40))
             swap_public(ctx, [int(v) for v in rng.permutation(n)],
                         [int(v) for v in rng.permutation(n)])
+        # lengths around 2^7 .. 2^16 (scratch / index types change there);
+        # also few long cycles, many fixed points
+        for n in (127, 128, 129, 255, 256, 257, 2047, 2048, 2049, 4097,
+                  32767, 32768, 65536, 65537):
+            for kind in range(3):
+                p1 = [int(v) for v in rng.permutation(n)]
+                if kind == 0:
+                    p2 = [int(v) for v in rng.permutation(n)]
+                elif kind == 1:
+                    p2 = p1[1:] + p1[:1]          # one cycle of length n
+                else:
+                    p2 = list(p1)
+                    i, j = (int(v) for v in rng.choice(n, 2, replace=False))
+                    p2[i], p2[j] = p2[j], p2[i]   # one transposition
+                swap_public(ctx, p1, p2)
+                ctx.count("swap_long_permutations")
         ctx.sample({"swap_distance": "all pairs up to length "
                     f"{args['maxlen']}", "example": [[2, 0, 1], [0, 1, 2]]})
         return
